@@ -475,3 +475,90 @@ def c20_e2e(R):
             if prob: print('REPLAY-CONFIRMED')
             """, src=bad[0])
     R.bounded("C20.e2e", "nsl.parser::NslParser.Parse", bad is None, len(progs), detail=f"{len(progs)} layouts; all identifier ranges designate their text" if not bad else bad[1], replay=rp)
+
+
+@family("C20.parse.history", props=["C20"], functions=["nsl.parser::NslParser.Parse", "nsl.parser::NslParser.__GetLocation", "nsl.parser::NslParser.__init__", "nsl.Compiler::Compiler.Compile"],
+        assumptions=["modular cut: the PLY automaton (self.parser) is replaced by a stub that, like PLY, hands the text to the lexer and then asks the REAL __GetLocation for the range of tokens at chosen offsets",
+                     "the parser's state relevant to locations is its line table: absent (fresh object) or built for an earlier text; a sequence of three texts with different line structure reaches both",
+                     "end-to-end part BOUNDED: the six layouts of C20.e2e parsed one after the other by ONE parser / ONE Compiler object"])
+def c20_parse_history(R):
+    """Whatever was parsed before on the same parser object, the ranges attached while parsing a text are converted with the line table of THAT
+    text: Parse(t1); Parse(t2) reports the same line:column for t2 as a fresh parser does."""
+    import nsl.parser as P
+    texts = ["alpha beta\ngamma\n\n  delta epsilon", "alpha\nbeta\ngamma\ndelta\nepsilon", "\n\n\nalpha beta gamma delta epsilon", "alpha beta gamma\tdelta\n epsilon"]
+    words = ["alpha", "beta", "gamma", "delta", "epsilon"]
+
+    def expected(text, w):
+        o = text.index(w)
+        line = text.count("\n", 0, o)
+        col = o - (text.rfind("\n", 0, o) + 1)
+        return f"{line + 1}:{col + 1}-{col + 1 + len(w)}"
+
+    class Stub:
+        def __init__(self, owner):
+            self.owner = owner
+
+        def parse(self, text, lexer=None, **kw):
+            lexer.input(text)
+            getloc = self.owner._NslParser__GetLocation
+            return [str(getloc(FakeP([w], [text.index(w)]), 1)) for w in words]
+
+    for order in itertools.permutations(range(len(texts)), 3):
+        prs = P.NslParser()
+        prs.parser = Stub(prs)
+        bad = None
+        for k, ti in enumerate(order):
+            got = prs.Parse(texts[ti])
+            want = [expected(texts[ti], w) for w in words]
+            if got != want and bad is None:
+                bad = (k, ti, got, want)
+        R.check(f"C20.parse.history[{'>'.join(map(str, order))}]", "nsl.parser::NslParser.Parse", bad is None,
+                detail="" if bad is None else f"parse #{bad[0] + 1} on the same parser (text {texts[bad[1]]!r}) located {words} at {bad[2]}, the text says {bad[3]}",
+                replay=None if bad is None else script("""
+                    from nsl import parser, ast
+                    texts = {{texts}}
+                    def locs(prs, src):
+                        tree = prs.Parse(src); out = []
+                        def walk(n):
+                            if isinstance(n, ast.PrimaryExpression): out.append((n.GetName(), str(n.GetLocation())))
+                            n.ForEachChild(lambda c, ctx: walk(c))
+                        walk(tree); return out
+                    shared = parser.NslParser(parser.ParseEntryPoint.Statement)
+                    bad = False
+                    for t in texts:
+                        a = locs(shared, t); b = locs(parser.NslParser(parser.ParseEntryPoint.Statement), t)
+                        print(repr(t), 'same parser:', a, 'fresh parser:', b)
+                        bad = bad or a != b
+                    if bad: print('REPLAY-CONFIRMED')
+                    """, texts=["x = (alpha + beta);", "x\n=\n(alpha\n+\nbeta);", "\n\n x = (alpha + beta);"]))
+
+    # end to end, one parser / one Compiler for all layouts
+    import nsl.ast as a
+    from nsl import Compiler
+    progs = _layout_programs()
+
+    def locs(tree):
+        out = []
+
+        def walk(n):
+            if isinstance(n, (a.PrimaryExpression, a.Argument, a.VariableDeclaration)):
+                out.append((n.GetName(), str(n.GetLocation())))
+            n.ForEachChild(lambda c, ctx: walk(c))
+        walk(tree)
+        return out
+
+    shared = P.NslParser()
+    bad = None
+    for src in progs + list(reversed(progs)):
+        if locs(shared.Parse(src)) != locs(P.NslParser().Parse(src)) and bad is None:
+            bad = src
+    R.bounded("C20.e2e.history[parser]", "nsl.parser::NslParser.Parse", bad is None, 2 * len(progs), detail="" if bad is None else f"a parser that parsed other layouts before reports different positions for {bad[:60]!r}...")
+    comp = Compiler.Compiler()
+    import io, contextlib
+    bad = None
+    for src in progs + list(reversed(progs)):
+        with contextlib.redirect_stdout(io.StringIO()):
+            t1 = comp.parser.Parse(src) if hasattr(comp, "parser") else None
+        if t1 is not None and locs(t1) != locs(P.NslParser().Parse(src)) and bad is None:
+            bad = src
+    R.bounded("C20.e2e.history[compiler]", "nsl.Compiler::Compiler.Compile", bad is None, 2 * len(progs), detail="" if bad is None else f"the Compiler's parser reports different positions after earlier compilations for {bad[:60]!r}...")
